@@ -31,7 +31,7 @@ import itertools, math, random, re, warnings, collections
 from harness.core import Case, ImplResult
 
 PID = 'C19'
-LEAN_MODULES = ['ThermoVerif.Props.C19']
+LEAN_MODULES = ['ThermoVerif.Props.C19', 'ThermoVerif.Props.C19Pipeline']
 RULE = ('histories of 1-3 rounds on the same unit and stream objects (build, re-pipe, build again: two units of equal '
         'ports swapped, a stream end moved, a stream added or removed); each round: connected flowsheets of 2-10 units with 1-3 inlet and outlet ports each, several feeds (with different '
         'F_mass) and products, 0-3 back-edges such that every unit still reaches a product, handed to '
@@ -39,10 +39,14 @@ RULE = ('histories of 1-3 rounds on the same unit and stream objects (build, re-
         '5 (thorough) units with in/out degree <= 3 in every unit order; a case is non-trivial when it has at least one '
         'stream between two units; distinct = distinct (ports, edges, F_mass, order)')
 ASSUMPTIONS = [
+    'the assembly of Network.from_units is modelled end to end as long as no walk reports a recycle (every acyclic '
+    'flowsheet): feeds, sort_feeds_big_to_small, the walk of every feed, simplified_linear_paths, join_linear_network, '
+    '_remove_overlap, _insert_linear_network, _append_network, join_network_at_unit, first_unit, final sort; '
+    'the model answers err=recycle exactly when a walk of the real code reports a recycle',
     'hypotheses of the theorems, monitored by the driver on every flowsheet (answer of the graph line): every stream '
     'ends in a given unit or nowhere (Graph.SinksOK), one outlet list per unit, every unit has an outlet',
-    'the joining machinery between the depth-first walk and Network.sort (join_linear_network, join_recycle_network, '
-    '_insert_recycle_network, reduce_recycles, ...) is not modelled; its output is validated per run by validNetwork',
+    'the recycle part of the assembly (join_recycle_network, _insert_recycle_network, _add_linear_network, '
+    'reduce_recycles) is not modelled; on cyclic flowsheets its output is validated per run by validNetwork',
     'Network.units of every (sub-)network equals the units of its flattened path when Network.sort runs (monitored)',
     'Python sets are modelled as duplicate-free lists, compared after sorting',
     'no interaction / universal / auxiliary units, no disjunctions, no missing streams, no explicit feed priorities',
@@ -64,6 +68,9 @@ class Recorder:
         self.lines = []       # (driver line, expected answer)
         self.depth = 0
         self.tags = set()
+        self.last_warn = 0
+        self.in_from_units = False
+        self.fu_recycle = False
 
     def sid(self, s):
         return s.n
@@ -126,6 +133,7 @@ def setup():
         nwarn = sum(1 for x in w if WARN_TEXT in str(x.message))
         after = rec.tokens(self)
         rec.lines.append((f'sort e={e} ' + ' '.join(before), ' '.join(after) + f' warn={nwarn}'))
+        rec.last_warn = nwarn
         if nwarn: rec.tags.add('sort:warned')
         if before != after: rec.tags.add('sort:changed')
         if [t for t in before if t[0] == 'r'] != [t for t in after if t[0] == 'r']: rec.tags.add('sort:added-recycle')
@@ -143,6 +151,7 @@ def setup():
                + '] E=[' + rec.ids(ends) + ']')
         rec.lines.append((f'dfs {rec.sid(feed)} e={e} u={us}', ans))
         if W: rec.tags.add('dfs:recycle')
+        if W and rec.in_from_units: rec.fu_recycle = True
         return W, L
 
     def feeds(fs):
@@ -439,15 +448,25 @@ def run_round(rnd, rec, units, streams, shape, edges, order, probes, failures, t
     inq = in_quantifier(shape, edges)
     nw, exc = None, None
     REC = rec
+    rec.last_warn = 0
     try:
         with warnings.catch_warnings():
             warnings.simplefilter('ignore')
             for line in probes: run_probe(line, units, streams, rec)
+            rec.last_warn = 0; rec.fu_recycle = False; rec.in_from_units = True
             nw = net.Network.from_units([units[i] for i in order])
     except Exception as e:      # the property promises a path: an exception is a failure of it
         exc = e
     finally:
         REC = None
+        rec.in_from_units = False
+    # the whole pipeline is modelled as long as no walk finds a recycle: the final network must be reproduced;
+    # as soon as a walk of the real code reports a recycle the model must answer err=recycle
+    fm = ','.join(str(int(x.F_mass)) for x in streams)
+    if rec.fu_recycle: want = 'err=recycle'; tags.append('pipeline:recycle')
+    elif nw is None: want = 'raised'
+    else: want = ' '.join(rec.tokens(nw)) + f' warn={rec.last_warn}'; tags.append('pipeline:modelled')
+    rec.lines.append((f'fromunits o={",".join(map(str, order))} f={fm}', want))
     last = len(rec.lines)
     fails = []
     if nw is not None:
